@@ -76,6 +76,10 @@ func (zp *ZoneParser) generate(l lex) (RR, bool) {
 
 		sb.WriteString(l.token)
 	}
+	if zp.c.Err() != nil {
+		// The input failed inside this directive.
+		return nil, false
+	}
 	s := sb.String()
 
 	r := &generateReader{
